@@ -228,3 +228,24 @@ Theorem C02_mapor_km_once_needed :
     mapor_km_ok H (KB ∪ KA) sD = true /\ mapor_km_ok H (KB ∪ KA) (mmerge orswot_valops sB sA) = false.
 Proof. exact km_once_needed_closed. Qed.
 Print Assumptions C02_mapor_km_once_needed.
+
+(** Map<K, Orswot>, EVERY history outside the classes of the known findings T2 and T3 (all commands; a key that some key remove names receives only nested adds [kmn_addonly] and at most one update per actor [km_once]; any other key receives anything): merge is commutative, associative and idempotent (Leibniz, complete states) on all reachable states (proofs/MapOrswotKMN.v) *)
+From Crdt Require Import model.Orswot model.Map spec.System spec.OrswotSpec spec.OrswotSystem spec.MapSpec spec.MapSystem spec.MapOrswotSpec spec.MapOrswotKM spec.MapOrswotKMN proofs.MapOrswotKMN proofs.MapOrswotKMNCor.
+Theorem C02_mapor_kmn_merge_comm (H : list (oprec (mop oop))) :
+  mohist_ok_kmn H -> km_once H -> kmn_addonly H -> forall (s1 : cmap orswot) (K1 : gset nat) (s2 : cmap orswot) (K2 : gset nat),
+  moreach_kmn H s1 K1 -> moreach_kmn H s2 K2 -> mmerge orswot_valops s1 s2 = mmerge orswot_valops s2 s1.
+Proof. exact (mapor_merge_comm_kmn H). Qed.
+Print Assumptions C02_mapor_kmn_merge_comm.
+
+Theorem C02_mapor_kmn_merge_assoc (H : list (oprec (mop oop))) :
+  mohist_ok_kmn H -> km_once H -> kmn_addonly H ->
+  forall (s1 : cmap orswot) (K1 : gset nat) (s2 : cmap orswot) (K2 : gset nat) (s3 : cmap orswot) (K3 : gset nat),
+  moreach_kmn H s1 K1 -> moreach_kmn H s2 K2 -> moreach_kmn H s3 K3 ->
+  mmerge orswot_valops (mmerge orswot_valops s1 s2) s3 = mmerge orswot_valops s1 (mmerge orswot_valops s2 s3).
+Proof. exact (mapor_merge_assoc_kmn H). Qed.
+Print Assumptions C02_mapor_kmn_merge_assoc.
+
+Theorem C02_mapor_kmn_merge_idem (H : list (oprec (mop oop))) :
+  mohist_ok_kmn H -> km_once H -> kmn_addonly H -> forall (s : cmap orswot) (K : gset nat), moreach_kmn H s K -> mmerge orswot_valops s s = s.
+Proof. exact (mapor_merge_idem_kmn H). Qed.
+Print Assumptions C02_mapor_kmn_merge_idem.
